@@ -10,6 +10,7 @@ from __future__ import annotations
 import argparse
 import collections
 import json
+import zlib
 import os
 import sys
 import time
@@ -56,7 +57,7 @@ def do_replay(path):
         print(f"job {rp['job']} not found in the current contract set")
         return 3
     if rp.get("corpus_monitor") is not None:
-        fails = corpus_failures(rp["property"])
+        fails = corpus_failures(rp["property"], rp.get("job"))
         print(json.dumps(fails[:5], indent=1, default=str))
         if fails:
             print(f"REPLAY: obligation {rp['obligation']}: the corpus monitor finds {fails[0]['relation']!r} failing in scenario {fails[0]['scenario']!r}")
@@ -349,12 +350,20 @@ def lib_clause_counts(meta, clause, used):
 _CORPUS = {}
 
 
-def corpus_failures(prop):
+def corpus_failures(prop, job=None):
+    fails = _corpus_failures(prop)
+    if prop == "C12":       # the corpus has two groups of C12 relations: continuation and reset+repeat
+        is_reset = "reset" in (job or "")
+        fails = [f for f in fails if f.get("property") != "C12" or f["relation"].startswith("reset") == is_reset]
+    return fails
+
+
+def _corpus_failures(prop):
     if prop not in _CORPUS:
         try:
             from pycv import monitor
             deps = set(props_config().get(prop, {}).get("depends_on", ()))
-            _CORPUS[prop] = monitor.run_corpus({prop} | deps, max_failures=5)
+            _CORPUS[prop] = monitor.run_corpus({prop} | deps, max_failures=40)
         except Exception as e:      # noqa: BLE001
             _CORPUS[prop] = []
     return _CORPUS[prop]
@@ -377,11 +386,23 @@ def replay_obligation(prop, o, jobs):
             out = dict(error=repr(e), failed=[], inputs={})
         rp["concrete"] = out
         confirmed = o["clause"] in [c for c, _ in out.get("failed", [])]
+        if not confirmed:
+            # the counter-model did not replay (symbolic units without a real counterpart, abstracted trigonometry, a model
+            # on the boundary): bounded random search for native inputs of the same job that fail the same clause
+            try:
+                w = explore.search_witness(job, o["model"], o["clause"], seed=zlib.crc32(o["id"].encode()))
+            except BaseException as e:      # noqa: BLE001
+                w = None
+            if w is not None:
+                rp["model"], rp["concrete"], n = w
+                rp["witness_search"] = dict(kind="bounded random search over the inputs of the job (replay aid, not a verdict)", trials_used=n,
+                                            first_attempt_with_the_verifier_model=out)
+                confirmed = True
     fam = (o.get("meta") or {}).get("family", "")
-    if not confirmed and fam in ("solver-method", "solver-run", "convergence"):
+    if not confirmed and fam in ("solver-method", "solver-run", "convergence", "snapshot", "export", "powertrain-reset"):
         # L2 obligation: no direct concrete input; evaluate the per-instant relations natively on the corpus of real
         # simulations (pycv/monitor.py) -- the first failing relation of this property is the replayed counterexample
-        fails = corpus_failures(prop)
+        fails = corpus_failures(prop, o.get("job"))
         rp["corpus_monitor"] = dict(scenarios=8, failures=fails[:5])
         if fails:
             confirmed = True
